@@ -7,6 +7,32 @@ ROOT = os.path.dirname(os.path.dirname(os.path.abspath(__file__)))
 ALL = [f"C{k:02d}" for k in range(1, 21)]
 
 CLAIMED = {
+    "C01": dict(
+        text=("Every created cooler is read back through the public API (pixel table with all value columns, dense and sparse full "
+              "matrix, tables, metadata, assembly) and raw; TLC validates each read-back against the declarative data model "
+              "(CoolerData.tla: FullRecords = stored records, plus mirror images in symmetric-upper mode; DenseBlock) - clauses "
+              "pixelsExact, matrixIsFullMatrix, extraColumnMatrix, tableUnchanged, metaUnchanged, assemblyUnchanged and all "
+              "ValidCSR clauses. Inputs: sampled/exhaustive stores on 3-bin tables, structured and random stores on six table "
+              "shapes, x input form (frame, shuffled frame, dict, iterator/list of frame/dict chunks of any sizes incl. empty "
+              "chunks, dense-array loader) x dtypes x HDF5 filter options x JSON metadata x root/nested destination x "
+              "path/URI/handle. The index builder model is model-checked (MC_Index)."),
+        design_ref="DESIGN.md section 6 C01",
+        note=("Trusted: TLC, structural projection. The stepwise writer model (Create.tla) is checked under C13. dask input not "
+              "covered; assembly names that are JSON literals are outside the domain."),
+        technique="TLC trace validation of real create/read round trips against the TLA+ data model",
+        category="model_checking"),
+    "C02": dict(
+        text=("TLC checks the index builders exhaustively (MC_Index: all arrays of length<=6 over 3 values x all block sizes: blocked "
+              "run-length encoding = plain; index = RLIndex for every sorted key column). Every collection written by creation (all "
+              "input forms), append-creation, merge, coarsen, unordered ingestion (one and two merge passes), zoomify, single-cell "
+              "creation and `cooler load` - applied in sequence to several collections per file - is projected raw with h5py and "
+              "each clause of CoolerData!ValidCSR is evaluated by TLC; util.rlencode / index_pixels / index_bins are validated at "
+              "function level on the exhaustive small scope; one create with > 10^6 pixels crosses the builder's block boundary "
+              "end to end."),
+        design_ref="DESIGN.md section 6 C02, section 4.4",
+        note="Trusted: TLC, h5py raw projection. The > 10^6-pixel case is validated through the run list of bin1_id.",
+        technique="TLA+ model checking (TLC) of the index builder + TLC trace validation of raw collections",
+        category="model_checking"),
     "C04": dict(
         text=("TLC checks for ALL bin tables with <=2 (thorough: 3) chromosomes of length <=5 (every composition into bins: uniform, "
               "short or long last bin, one-bin chromosomes, variable) and ALL (chrom,start,end) that the extent arithmetic of the "
